@@ -34,9 +34,16 @@ type Config struct {
 	Series string  `json:"series"` // rsync | bsdiff (optimized patch, wh.Rediff partitions 2)
 	Comp   wh.Comp `json:"comp"`
 	Pair   string  `json:"pair"`
+	// Whitelist: "" = every file; "even" / "odd" = only the new-build files with even /
+	// odd index are applied (the others are skipped by the patcher), in the reference
+	// run, the recording run and every resumed run alike.
+	Whitelist string `json:"whitelist,omitempty"`
 }
 
 func (c Config) String() string {
+	if c.Whitelist != "" {
+		return fmt.Sprintf("%s/%s/%s/%s/wl-%s", c.Bowl, c.Series, c.Comp, c.Pair, c.Whitelist)
+	}
 	return fmt.Sprintf("%s/%s/%s/%s", c.Bowl, c.Series, c.Comp, c.Pair)
 }
 
@@ -278,6 +285,15 @@ func openSession(cfg Config, patch []byte, oldDir string, d dirs, label func(str
 		return nil, "patcher-new", err
 	}
 	s := &session{p: p}
+	if cfg.Whitelist != "" {
+		wl := map[int64]bool{}
+		for i := range p.GetSourceContainer().Files {
+			if (i%2 == 0) == (cfg.Whitelist == "even") {
+				wl[int64(i)] = true
+			}
+		}
+		p.SetSourceIndexWhitelist(wl)
+	}
 	if cfg.Bowl == "fresh" {
 		s.pool = fspool.New(p.GetTargetContainer(), oldDir)
 		s.b, err = bowl.NewFreshBowl(bowl.FreshBowlParams{
